@@ -17,7 +17,7 @@ var baseWeights = Weights{
 	"write": 14, "write-old": 2, "rewrite-same": 2, "touch": 1, "rmfile": 4, "rmdir": 2, "mkdir": 1,
 	"add": 12, "add-all": 3, "rm": 4, "commit": 10, "branch": 2, "branch-rename": 1, "branch-delete": 1, "branch-list": 1,
 	"switch": 2, "switch-c": 1, "reset": 3, "restore": 4, "update-ref": 1, "config": 1, "status": 3, "log": 1, "reflog": 1,
-	"ls-files": 2, "rev-parse": 2, "cat-file": 1, "write-tree": 1, "hash-object": 1, "junk": 2, "edit-same-size": 2, "fd-swap": 1, "twins": 1, "hard-rmdir": 1, "dir-gone-probe": 1, "case-twin-commit": 1, "restore-dir-probe": 1,
+	"ls-files": 2, "rev-parse": 2, "cat-file": 1, "write-tree": 1, "hash-object": 1, "junk": 2, "edit-same-size": 2, "fd-swap": 1, "twins": 1, "hard-rmdir": 1, "dir-gone-probe": 1, "case-twin-commit": 1, "restore-dir-probe": 1, "twin-dirs": 1, "restore-family-probe": 1,
 }
 
 func weights(over Weights) Weights {
@@ -99,7 +99,7 @@ func init() {
 	checks["C09"] = histCheck("C09", []string{"C09.restore_only_tracked", "C09.world_restore_frame", "C09.world_restore_staged_frame", "C09.restore_named", "C09.restore_unknown_refused", "C06.isDir_iff", "C06.mem_byDir", "C06.getEntry_correct", "C04.update_membership", "C04.delete_exact", "C09.restoreStaged_exact", "C09.restoreStaged_unknown_refused", "C09.restoreIndexOne_spec", "C09.restoreIndexOne_refused_iff", "C09.rsFold_spec"}, histRule,
 		func(ctx *Ctx) *HistCfg {
 			return &HistCfg{Prop: "C09", Cases: tierN(ctx, 200, 2000), MinSteps: 10, MaxSteps: 35,
-				W:       weights(Weights{"restore": 20, "commit": 8, "rmfile": 8, "rmdir": 5, "write": 16, "add": 14, "rm": 4, "fd-swap": 4, "edit-same-size": 4, "twins": 5, "restore-dir-probe": 6, "junk": 0}),
+				W:       weights(Weights{"restore": 20, "commit": 8, "rmfile": 8, "rmdir": 5, "write": 16, "add": 14, "rm": 4, "fd-swap": 4, "edit-same-size": 4, "twins": 5, "restore-dir-probe": 6, "restore-family-probe": 6, "junk": 0}),
 				Oracles: []HistOracle{orC09}}
 		})
 	checks["C10"] = histCheck("C10", []string{"C03.inv_run", "C10.world_others_keep", "C10.world_branch_switch_refused_unchanged", "C10.world_switch_spec", "C10.world_create_spec", "C10.world_delete_spec", "C10.world_rename_spec", "C10.world_switch_create_spec", "C03.inv_step", "C10.getBranchPos_correct", "C10.add_ok", "C10.add_dup", "C10.add_invalid", "C10.delete_ok", "C10.delete_current_refused", "C10.delete_unknown_refused", "C10.update_ok", "C10.update_unknown_refused", "C10.rename_ok", "C10.rename_dup_refused", "C10.others_keep", "C10.updateRef_spec", "C10.create_refused", "C10.delete_refused", "C10.switch_spec", "C10.add_lookup", "C10.delete_lookup", "C10.update_lookup", "C10.rename_lookup", "C10.add_refines", "C10.delete_refines", "C10.update_refines"}, histRule,
@@ -180,7 +180,7 @@ func init() {
 	checks["C05"] = histCheck("C05", []string{"C05.world_readback", "C05.walk_monotone", "C05.reset_readback", "C05.readback_writeTree", "C05.walk_write", "C05.walk_encode", "C05.walk_empty", "C05.render_children", "C05.loop_encode", "C02.flatten_writeTree"}, histRule+"; after every commit `cat-file -p` is run on every tree of the snapshot, and `reset --mixed` + `ls-files -s` read snapshots back",
 		func(ctx *Ctx) *HistCfg {
 			return &HistCfg{Prop: "C05", Cases: tierN(ctx, 200, 2000), MinSteps: 8, MaxSteps: 30,
-				W:       weights(Weights{"commit": 18, "add-all": 8, "add": 14, "rm": 6, "reset": 8, "rename-reset": 3, "ls-files": 6, "cat-file": 6, "write": 18, "junk": 0}),
+				W:       weights(Weights{"commit": 18, "add-all": 8, "add": 14, "rm": 6, "reset": 8, "rename-reset": 3, "ls-files": 6, "cat-file": 6, "write": 18, "twin-dirs": 4, "junk": 0}),
 				Oracles: []HistOracle{orC05, orC08}, PreReset: true, CatTrees: true}
 		})
 	checks["C06"] = histCheck("C06", []string{"C06.world_index_canonical", "C06.world_commits_read_back_canonical", "C06.world_step_index_canonical", "C06.world_index_canonical_partial", "C06.decode_encode", "C06.getEntry_correct", "C06.isDir_iff", "C06.mem_byDir", "C06.byDir_sublist", "C04.eraseIdx_canonical", "C04.sortEntries_sorted"}, histRule,
